@@ -28,7 +28,7 @@ ANCHORS = ['manifest:ManifestFile.load', 'manifest:ManifestPathEntry.process_pat
            'manifest:ManifestEntryTIMESTAMP.from_list',
            'manifest:ManifestEntryDIST.from_list']
 REQUIRED = ['manifest:ManifestFile.load', 'manifest:ManifestPathEntry.decode_char',
-            'expect:reject', 'expect:accept', 'framed_texts']
+            'expect:reject', 'expect:accept', 'framed_texts', 'long_lines']
 ASSUMPTIONS = ['texts are str (valid UTF-8); lines containing whitespace other than '
                'space/tab, armor-like lines, exotic integer syntax (+1, 1_0, -0, '
                'non-ASCII digits), surrogate escapes and non-padded timestamps are '
@@ -71,6 +71,7 @@ def units(tier, seed):
                 u.append({'k': 'tok', 'L': L, 'first': [a, b]})
     u.append({'k': 'tok', 'L': 1 if tier == 'quick' else 1, 'first': []})
     u.append({'k': 'framed', 'L': 3 if tier == 'quick' else 5})
+    u.append({'k': 'long'})
     ngram, nmut = (400, 300) if tier == 'quick' else (15000, 15000)
     for i in range(ngram):
         u.append({'k': 'gram', 'i': i, 'n': 50})
@@ -242,14 +243,49 @@ def run_framed(u, ctx):
                     ctx.count('framed_texts')
 
 
+LONG_HEADS = ['IGNORE foo', 'TIMESTAMP 2017-10-22T18:06:41Z', 'DATA foo 1',
+              'DATA foo 1 SHA1', 'DATA foo 1 SHA1 abcd', 'DIST d 2 MD5']
+LONG_TAILS = ['IGNORE bar', 'DATA x 0', 'abcd', 'SHA1 abcd', '']
+LONG_SIZES = [4096, 8192, 65536, 131072, 1 << 20]
+
+
+def long_text(spec):
+    head, pad, tail = spec['head'], spec['padchar'] * spec['pad'], spec['tail']
+    return spec['before'] + head + pad + tail + '\n' + spec['after']
+
+
+def run_long(u, ctx):
+    """One physical line far longer than any read buffer: the separator between two
+    fields is a run of blanks placed so that the next field starts exactly at (or
+    just around) a power-of-two offset.  It is still ONE line."""
+    n = 0
+    for size in LONG_SIZES:
+        for head in LONG_HEADS:
+            for tail in LONG_TAILS:
+                for delta in (-1, 0, 1):
+                    spec = {'head': head, 'tail': tail,
+                            'pad': size + delta - len(head),
+                            'padchar': ' \t'[n % 2], 'before': ['', 'IGNORE a\n'][n % 2],
+                            'after': ['', 'IGNORE z\n'][(n // 2) % 2]}
+                    if spec['before']:
+                        spec['pad'] -= len(spec['before'])
+                    n += 1
+                    text = long_text(spec)
+                    case = {'kind': 'long', 'spec': spec}
+                    judge(ctx, text, case, klass='long')
+                    ctx.count('long_lines')
+
+
 def run_unit(u, ctx):
     {'esc': run_esc, 'tok': run_tok, 'gram': run_gram, 'mut': run_mut,
-     'framed': run_framed}[u['k']](u, ctx)
+     'framed': run_framed, 'long': run_long}[u['k']](u, ctx)
 
 
 def replay(case, ctx):
     if case.get('framed'):
         from vf.checks import c04
         c04.judge_text(ctx, case['text'], case, enumerated=False, klass='framed')
+    elif case.get('kind') == 'long':
+        judge(ctx, long_text(case['spec']), case, klass='long')
     else:
         judge(ctx, case['text'], case)
